@@ -35,6 +35,7 @@ ResetVars ==
   /\ pool' = <<>> /\ nfc' = 0
   /\ cstate' = "open" /\ cpc' = "run"
   /\ fdir' = [f \in Fids |-> f \in InitFids]
+  /\ sstop' = FALSE
   /\ cancelled' = {} /\ badcall' = FALSE /\ crashed' = FALSE
   /\ destroyed' = [f \in Fids |-> 0]
   /\ creator' = [f \in Fids |-> 0]
